@@ -61,6 +61,9 @@ type Run struct {
 	done    chan struct{}
 	seCount int
 	Notes   []string
+	// RespMarks: the response interceptor logs a "Resp" marker for every response the
+	// executor hands to the transport (transport modes; the executor-direct loop logs its own)
+	RespMarks bool
 }
 
 type runKey struct{}
